@@ -57,6 +57,27 @@ theorem table_roundtrip (ls : List String) (pfx : String) (hok : tableOK ls pfx 
   rw [trimPrefix_digit _ _ hhead hp]
   exact parseFirst_format (layoutsOf ls) i (goLayout l.toList) hi hd hfl (hs _ hmem) w hb hx
 
+theorem parseFirstOk_of (ok : Wall → Bool) (ls : List (List Elem)) (s : S) (i : Nat) (w : Wall)
+    (h : parseFirst ls s = some (i, w)) (hok : ok w = true) : parseFirstOk ok ls s = some (i, w) := by
+  induction ls generalizing i with
+  | nil => simp [parseFirst] at h
+  | cons l r ih =>
+    simp only [parseFirst] at h
+    simp only [parseFirstOk]
+    split at h
+    · rename_i w' hw
+      cases h
+      simp [hok]
+    · rename_i hn
+      simp only [Option.map_eq_some_iff] at h
+      obtain ⟨⟨j, w'⟩, hj, hjw⟩ := h
+      cases hjw
+      simp [ih j hj]
+
+theorem offsetInRange_of_bounded (w : Wall) (hb : Bounded w) : offsetInRange w = true := by
+  have := hb.offset
+  simp [offsetInRange]; omega
+
 /-- a reading that a layout without a fraction element can express has no sub-second part, so
     the parser's layout widening leaves its layout alone -/
 theorem widen_id (l : String) (w : Wall) (hx : Expressible (goLayout l.toList) w) : widenLayout l w = l := by
